@@ -34,6 +34,7 @@ LimsOne == {<<30, 200>>}
 LimsThorough == {<<0, 255>>, <<30, 200>>, <<100, 101>>, <<0, 128>>, <<0, 1>>, <<254, 255>>, <<77, 203>>}
 All == 0..255
 CQuick == {0, 1, 77, 128, 254, 255}
+CThorough == {0, 1, 2, 33, 64, 77, 100, 127, 128, 129, 200, 253, 254, 255}
 
 CfgOfAlg(a, lim) ==
   [kind |-> "hwmon", neverStop |-> TRUE, hasRpm |-> FALSE, hasPwm |-> TRUE, hasMode |-> TRUE,
